@@ -59,7 +59,8 @@ OBSERVATIONS = [
     "aead.New's Decrypt, which reports 'aead_factory: decryption failed'",
     "O5 a DEK template of a supported key type whose format is invalid (AES-GCM key size 17, unparsable ChaCha20-Poly1305 format, ...) is "
     "accepted by NewKMSEnvelopeAEAD2, NewKMSEnvelopeAEADWithContext and CreateKMSEnvelopeAEADKeyTemplate; every Encrypt then fails before "
-    "the remote is consulted, Decrypt works",
+    "the remote is consulted, Decrypt works. (The godoc of CreateKMSEnvelopeAEADKeyTemplate says 'If either uri or dekTemplate contain invalid "
+    "input, an error is returned': an empty URI and such templates are accepted - reported to the lead as documented-vs-actual)",
     "O6 the KmsEnvelopeAeadKey key manager consults the registry when aead.New builds the primitive (Supported, then GetAEAD once, both with "
     "the key's URI), never per call and not in keyset.NewHandle; a KMSClient whose GetAEAD returns (nil, nil) yields a primitive whose "
     "Encrypt and every Decrypt that passes parseEnvelope panic (nil pointer dereference)",
